@@ -47,6 +47,26 @@ CHECKS = {
   "Seeded search over authenticator chains (all six types, catalogue- and rule-level allow_fallback_on_error), requests with none/valid/invalid/malformed credentials per kind and transport faults of the identity-provider parties; the winning subject, a failed chain and 'no later authenticator's party contacted after the chain stopped' are judged against the reference model. Evidence over sampled executions, not a proof.",
   "Trusts: each authenticator kind reads its own credential carrier so its class is known; malformed credentials are not judged; a remote fault counts like a rejection.",
   "DESIGN.md section 3 C04"),
+"C16": ("signer-sched",
+  "seeded cooperative scheduler over lock shims and inserted yield points in jwt_signer.go / jwt_finalizer.go, Go race detector, simulated watcher and step-wise disk writes; ghost-state oracle (published key-set versions observed between steps) over the recorded history",
+  "Seeded search over interleavings of token issuing (real jwt finalizer, with or without the real cache), JWKS reads (real management handler) and key-store reloads dispatched like `go listener.OnChanged`, over key stores of every supported key type and size with/without certificate chains and key ids; every handed-out token must verify with the active key of a key set published during its invoke..return interval, name its kid/alg and carry exact system claims; every JWKS read must equal one published set and contain no private members. Evidence over sampled schedules, not a proof.",
+  "Trusts: interleavings matter at lock operations, inserted yields and unsynchronised accesses (race detector); a key-store version is identified by RFC 7638 thumbprints parsed with the standard library; wall-clock iat tolerance of 2 s.",
+  "DESIGN.md section 3 C16"),
+"C17": ("mech-sim",
+  "seeded variant-creation / execution histories against the real catalogue with a fresh-catalogue reference (behavioural signatures), plus concurrent executions under the seeded scheduler and the race detector",
+  "Seeded search over histories of rule-level variant creations (every documented override of every mechanism type) and executions; the observable behaviour of every instance (remote requests, decision, headers, cookies, outputs, flags; without cache, with two probe requests in alternating order, and outputs under a shared real cache) is re-derived after every operation and compared with the same configuration built alone in a fresh catalogue; 2-4 concurrent request tasks then create and execute prototypes and variants under the race detector (first use included). Evidence over sampled histories and schedules, not a proof.",
+  "Trusts: behaviour, not struct contents, is compared; interleavings at remote calls and before executions plus the happens-before race detector; token time claims normalised.",
+  "DESIGN.md section 3 C17"),
+"C18": ("provider-sim",
+  "deterministic simulation of the four rule providers against simulated sources with fault plans (fake clock for http_endpoint and cloud_blob incl. real gocron; event-level simulation for file_system; real client-go informer over an in-memory API server for kubernetes); oracle = legality/exactly-once state machine per source + possible-state model folded over what the provider observed + convergence at quiescence",
+  "Seeded search over source histories and fetch outcomes per provider (content new/unchanged/invalid/empty/removed/renamed, transport and API faults, duplicated/delayed/coalesced notifications, watch gaps with compaction, processor rejections). After every step the active content of every source must be allowed by the observations so far, the processor call sequence must be a legal run without duplicate application, and after faults stop the active sets must equal the latest content. Evidence over sampled histories, not a proof.",
+  "Trusts: the stated event model for inotify; the recording model processor in place of the real repository; kubernetes runs on the wall clock with an 8 s liveness bound; recorded findings (known_findings.txt) end the runs that hit them.",
+  "DESIGN.md section 3 C18"),
+"C19": ("signer-reload + robust-sim",
+  "fault-injecting simulation with crash detection as the oracle: hot reloads of the jwt signer under the seeded scheduler with torn/invalid/unsupported key-store contents; truncated and type-confused rule sets through the real parser, processor and factory; truncated/corrupted/type-confused remote answers, malformed tokens and odd requests through the three real entry points; harness process deaths are attributed, minimised by re-execution and reported",
+  "Seeded search over corrupted inputs and reload schedules; a violation is a panic escaping a load path or entry point, a panicking reload task, a dead harness process, a lost previously loaded state or a valid reload that is not applied. Evidence over sampled inputs and schedules, not a proof (the truncation offsets and confusion sites are sampled, not enumerated).",
+  "Trusts: TLS key store, http_message_signatures and trust store reloads share the key-store loader exercised here and are not driven separately; provider goroutine crashes are found by the C18 harnesses through the same process-death attribution.",
+  "DESIGN.md section 3 C19"),
 }
 
 PENDING = [p for p in ["C01","C04","C07","C10","C11","C16","C17","C18","C19"] if p not in CHECKS]
@@ -75,6 +95,10 @@ def main():
       {"name":"repo-sched","path":"/verif/harness/internal/rules","serves_properties":["C07"],"kind_free_text":"seeded cooperative scheduler (simsync) + race detector + porcupine over the instrumented repository"},
       {"name":"time-sim","path":"/verif/harness/internal/verifsim/timesim","serves_properties":["C10","C11"],"kind_free_text":"synctest bubble (fake clock) around the whole decision service built from its real constructors, simnet simulated parties with fault plans, real in-memory cache or Redis-semantics stub"},
       {"name":"pipeline-sim","path":"/verif/harness/internal/verifsim/pipesim","serves_properties":["C01","C04"],"kind_free_text":"whole-request simulation: real entry points (decision HTTP, Envoy gRPC over bufconn, proxy with real upstream on net.Pipe) + simnet parties with per-party fault plans + ground-truth evaluator"},
+      {"name":"signer-sched","path":"/verif/harness/internal/rules/mechanisms/finalizers","serves_properties":["C16","C19"],"kind_free_text":"simsync scheduler + race detector over the instrumented jwt signer/finalizer, simulated watcher, step-wise key-store writes, ghost-state oracle"},
+      {"name":"mech-sim","path":"/verif/harness/internal/verifsim/mechsim","serves_properties":["C17","C01"],"kind_free_text":"real catalogue + mechanism factory, behavioural signatures vs fresh catalogue, concurrent executions (and concurrent requests through rules sharing default-rule stages) under simsync + race detector"},
+      {"name":"provider-sim","path":"/verif/harness/internal/rules/provider","serves_properties":["C18"],"kind_free_text":"four provider harnesses (bubble + gocron for http_endpoint / cloud_blob, event-level for file_system, real informer over in-memory API server for kubernetes) sharing the provsim oracle"},
+      {"name":"robust-sim","path":"/verif/harness/internal/verifsim/pipesim","serves_properties":["C19"],"kind_free_text":"corrupted rule sets / remote answers / requests through the real load paths and entry points with crash detection"},
     ]
     m = {
      "version":1,
